@@ -22,6 +22,7 @@ structure LoadedWith (cfg : Cfg) (pC : Int) (st : St) (f : Nat) (C : List Int) :
   range : InRange C pC
   fin : ∀ x ∈ C, (st.ls x).finalized = true
   sum : sumOn st.ssize C = (st.le f).size
+  pos : 0 < (st.le f).size
   size : (st.an f).sfs = (st.le f).size ∨ (cfg.v.finalizeChecksKnownSize = false ∧ (st.le f).size < (st.an f).sfs)
 
 /-- the `more` list `L` of the Loading entry `f` -/
@@ -72,7 +73,7 @@ theorem LoadedWith.transfer {cfg : Cfg} {pC pC' : Int} {st st' : St} {f : Nat} {
     (han : st'.an f = st.an f) (hle : (st'.le f).size = (st.le f).size) (hp : pC ≤ pC')
     (hx : ∀ x ∈ C, st'.sl x = st.sl x ∧ (st'.ls x).finalized = true) :
     LoadedWith cfg pC' st' f C := by
-  refine ⟨?_, h.nodup, h.range.mono hp, fun x hxC => (hx x hxC).2, ?_, ?_⟩
+  refine ⟨?_, h.nodup, h.range.mono hp, fun x hxC => (hx x hxC).2, ?_, by rw [hle]; exact h.pos, ?_⟩
   · rw [han]
     refine Chain.frame (fun x hxC => ?_) h.chain
     simp only [St.next, (hx x hxC).1]
@@ -418,11 +419,12 @@ theorem InvCore.finalized {cfg : Cfg} {g : Geo} {pos pL pC pC' : Int} {st st' : 
     by_cases hxC : x ∈ C <;> simp [SquidModel.Rock.markFinal, hxC]
   -- the new chain
   have hnew : LoadedWith cfg pC' st' f C := by
-    refine ⟨?_, hok.nodup, ?_, ?_, ?_, ?_⟩
+    refine ⟨?_, hok.nodup, ?_, ?_, ?_, ?_, ?_⟩
     · rw [hnext, hok.an]; simp only [upd_same, finalAnchor]; exact hok.chain
     · intro x hx; have := hCr x hx; omega
     · intro x hx; rw [hok.ls]; simp [SquidModel.Rock.markFinal, hx]
     · rw [hssize, hok.le]; simp only [upd_same]; exact hok.sum
+    · rw [hok.le]; simp only [upd_same]; exact hok.pos
     · rw [hok.an, hok.le]
       simp only [upd_same, finalAnchor]
       by_cases h0 : (st.an f).sfs = 0
